@@ -12,6 +12,7 @@ SPEC = {
         {
             'name': 'write', 'shims': ['nix'], 'edits': STORAGE_EDITS, 'harness_files': {ST: 'harness/storage.rs'},
             'harnesses': [
+                {'name': 'dbg_write_min', 'file': ST, 'tiers': ['dbg'], 'timeout': 900, 'unwindset': UW},
                 {'name': 'c02_write_account', 'file': ST, 'timeout': 1800, 'unwindset': UW, 'bounds': 'account file; ' + B, 'asserts': A},
                 {'name': 'c02_write_private_key', 'file': ST, 'timeout': 1800, 'unwindset': UW, 'bounds': 'private-key file; ' + B, 'asserts': A},
                 {'name': 'c02_write_certificate', 'file': ST, 'timeout': 1800, 'unwindset': UW, 'bounds': 'certificate file; ' + B, 'asserts': A},
